@@ -104,6 +104,12 @@ def readShapeOk (ev : List (String × String)) : Bool :=
   ((ds.takeWhile (fun x => x.1.1 != "load")).all (fun x => x.1.1 != "assign")) &&
   ev.contains ("default", "path=None") && (ev.takeWhile (fun e => e.1 != "load")).contains ("cwd", "")
 
+/-- once the first store into the receiver has happened nothing but stores follows: everything that can fail (decoding
+    the archive, the loop over its sectors) is done on local data first, so an unreadable file cannot leave a partially
+    updated receiver (since fix: commit of `Wavefunction.read`; before it the loop over the sectors stored as it went) -/
+def storesLast (ev : List (String × String)) : Bool :=
+  (ev.dropWhile (fun e => e.1 != "assign")).all (fun e => e.1 == "assign")
+
 /-- exactly one `dump`, no store into the receiver, directory resolved at call time -/
 def saveShapeOk (ev : List (String × String)) : Bool :=
   (ev.filter (fun e => e.1 == "dump")).length == 1 && ev.all (fun e => e.1 != "assign") &&
@@ -111,10 +117,10 @@ def saveShapeOk (ev : List (String × String)) : Bool :=
 
 /-- the source of `Wavefunction.read` as it is now: load once, then assign (the premise of `C15_atomic`), default
     directory taken from `os.getcwd()` inside the body (the premise of `C15_location`) -/
-theorem C15_shape_read : readShapeOk GenPersist.readEvents = true ∧
-    GenPersist.readEvents = [("default", "path=None"), ("cwd", ""), ("open", "'r+b'"), ("load", ""),
+theorem C15_shape_read : readShapeOk GenPersist.readEvents = true ∧ storesLast GenPersist.readEvents = true ∧
+    GenPersist.readEvents = [("default", "path=None"), ("cwd", ""), ("open", "'r+b'"), ("load", ""), ("loop{", ""), ("}", ""),
       ("assign", "self._symmetry_map"), ("assign", "self._conserved"), ("assign", "self._conserve_spin"),
-      ("assign", "self._conserve_number"), ("assign", "self._norb"), ("loop{", ""), ("assign", "self._civec"), ("}", "")] := by
+      ("assign", "self._conserve_number"), ("assign", "self._norb"), ("assign", "self._civec")] := by
   decide
 
 theorem C15_shape_save : saveShapeOk GenPersist.saveEvents = true ∧
